@@ -442,6 +442,18 @@ def _is_closing_tag(line: str) -> bool:
     )
 
 
+# Any tag opening delimiter, with the "/" of a closing tag if there is one.
+_tag_start_re: re.Pattern[str] = re.compile(r"(?:\{%|\{#|\{\{|<!--)\s*(/?)")
+
+
+def _has_unclosed_tag(lines: list[str]) -> bool:
+    """Check whether more tags are opened than closed on these lines."""
+    depth = 0
+    for match in _tag_start_re.finditer("\n".join(lines)):
+        depth += -1 if match.group(1) else 1
+    return depth > 0
+
+
 def _fix_closing_tag_spacing(text: str) -> str:
     """
     Fix closing tag spacing for block content only.
@@ -459,7 +471,10 @@ def _fix_closing_tag_spacing(text: str) -> str:
     fixed_lines: list[str] = []
 
     for i, line in enumerate(lines):
-        if _is_closing_tag(line):
+        # A closing tag whose opening tag is in this same text is an inline pair that
+        # wrapping happened to break here: it is part of the paragraph (and of the list
+        # item the paragraph is in) and keeps its indentation.
+        if _is_closing_tag(line) and not _has_unclosed_tag(lines[:i]):
             stripped = line.lstrip()
             # Only add blank line before closing tag if previous line is block content
             if i > 0 and fixed_lines:
